@@ -53,6 +53,12 @@ GS(int*, sizeof(PtrT))
 GS(long*, sizeof(PtrT))
 GS(int[4], 16)
 GS(long[3], 12)
+using long_2x3 = long[2][3];
+using char_3x2 = char[3][2];
+using intp_2x2 = int* [2][2];
+GS(long_2x3, 24)
+GS(char_3x2, 6)
+GS(intp_2x2, 4 * sizeof(PtrT))
 using VSG = std::conditional_t<sizeof(PtrT) == 2, VS_lp32_p16, std::conditional_t<sizeof(PtrT) == 4, VS_lp32_p32, VS_lp32_p64>>;
 GS(VS, sizeof(VSG))
 #undef GS
